@@ -5,6 +5,9 @@ Two halves, each with the five stages of BUILDING.md:
              do - return / raise; transcription of Mapper.__call__ refines the meaning, as handler
              chosen and as run: one handler, its outcome unchanged; negative control eafp)
              ->  drive_dispatch  ->  C04_DJudge
+  dhist:     C04_DHist (TLC, S-layer: histories of 2-3 dispatches on ONE mapper instance over node
+             classes that share handler names across hierarchies; negative control: per-instance
+             memo keyed by handler name)  ->  drive_dhist  ->  C04_DHJudge
   walk:      C04_WGen (TLC: trees x traversal configurations, user node classes x handler
              subsets; stack acceptor == declarative walk contract on the canonical walk and its
              mutations), C04_WalkModel (TLC: full state graph of the acceptor on tiny trees +
@@ -101,6 +104,85 @@ def run_dispatch(tier, seed, out, wd):
                      "handler_names": r["names"], "observed": r["obs"][:3]}
                     for r in recs[k:k + 1]]
     return runs
+
+
+# ------------------------------------------------------------------ dispatch histories (round 7)
+def gen_dhist(tier, out):
+    """C04_DHist: ONE mapper instance, histories of 2-3 dispatches over node classes that share
+    handler names across hierarchies; every dispatch is the meaning for its own class (model
+    check); negative control: a per-instance memo keyed by handler name."""
+    import concurrent.futures as cf
+    with cf.ThreadPoolExecutor(max_workers=3) as ex:
+        fg = ex.submit(kit.run_tlc, "C04_DHist", f"C04_DHist_{tier}", workers=6)
+        fn = ex.submit(kit.run_tlc, "C04_DHist", "C04_DHist_neg_byname", workers=2, heap="2g")
+        # a memo keyed by NODE CLASS is still a function of (mapper class, node class): must hold
+        fc = (ex.submit(kit.run_tlc, "C04_DHist", "C04_DHist_byclass", workers=4)
+              if tier == "thorough" else None)
+        gen, neg = fg.result(), fn.result()
+        bycls = fc.result() if fc else None
+    kit.require_clean(gen, "C04_DHist (histories of dispatches on one mapper instance)")
+    if "EveryDispatchIsTheMeaning" not in neg.invariant_violated:
+        raise kit.MachineryError("C04_DHist negative control byname: TLC did not find the dispatch "
+                                 "that follows the instance's memo instead of the node's class")
+    if bycls is not None:
+        kit.require_clean(bycls, "C04_DHist with a per-instance memo keyed by node class")
+        out.add_tlc(bycls)
+    out.add_tlc(gen)
+    printed = gen.printed()
+    tabs = [p for p in printed if "hruns" in p]
+    cases = [p for p in printed if "hist" in p]
+    if len(tabs) != 1 or not cases:
+        raise kit.MachineryError("C04_DHist printed no run table / no histories")
+    for c in cases:
+        for e in c["hist"]:
+            for k in e["chain"]:
+                k["chars"] = k["name"]
+                k["name"] = "".join(k["name"])
+    cases.sort(key=lambda c: json.dumps(c, sort_keys=True))
+    kit.log(f"C04: dispatch-history model {gen.distinct} states, negative control byname caught; "
+            f"{len(cases)} histories x {len(tabs[0]['hruns'])} runs ({gen.wall:.1f}s)")
+    out.extra["dispatch_history_model_states"] = gen.distinct
+    out.extra["dispatch_history_negative_controls_caught"] = "1/1"
+    return [{"id": i, "case": c} for i, c in enumerate(cases)], tabs[0]
+
+
+def dhist_sig(v):
+    if v["v"] == "name":
+        return {"half": "dhist", "clause": "name"}
+    return {"half": "dhist", "clause": v["v"], "mapper": v["mapper"], "mode": v["mode"],
+            "target": "hook" if v["target"] == "unsupported" else "handler", "rel": v["rel"]}
+
+
+def judge_dhist(out, recs, wd, tab):
+    shards = kit.write_shards(recs, wd / "trace", "c04dh", max(500, -(-len(recs) // 4)))
+    verdicts, st, tr = kit.judge_shards("C04_DHJudge", "C04_DHJudge", shards)
+    out.states += st
+    out.transitions += tr
+    out.traces += len(recs)
+    byid = {r["id"]: r for r in recs}
+    for v in verdicts:
+        if v["v"] == "MALFORMED":
+            raise kit.MachineryError(f"C04 dispatch-history record {v['id']} malformed")
+        rec = byid[v["id"]]
+        out.fail(dhist_sig(v), {"half": "dhist", "case": {"id": rec["id"], "case": rec["case"]},
+                                "tab": tab, "verdict": v, "recorded": rec["obs"], "names": rec["names"]})
+
+
+def run_dhist(tier, seed, out, wd):
+    cases, tab = gen_dhist(tier, out)
+    recs = kit.drive(DRV, "drive_dhist", cases, tab, procs=8, chunk=250)
+    out.evaluations += sum(len(row) for r in recs for row in r["obs"])
+    judge_dhist(out, recs, wd, tab)
+    for r in recs:
+        out.note_case(r["case"], nontrivial=True)
+    out.extra["dispatch_histories"] = len(recs)
+    out.extra["dispatch_history_runs_per_history"] = len(tab["hruns"])
+    k = max(1, len(recs) // 2)
+    out.samples += [{"dispatch_history_on_one_mapper":
+                     [{"base": e["base"], "chain": [{q: c[q] for q in c if q != "chars"} for c in e["chain"]]}
+                      for e in r["case"]["hist"]],
+                     "impl": r["case"]["impl"],
+                     "observed": [[o["first"] for o in row] for row in r["obs"]]} for r in recs[k:k + 1]]
 
 
 # ------------------------------------------------------------------ traversal half
@@ -347,11 +429,12 @@ class _Part:
 def run(tier, seed, out):
     import concurrent.futures as cf
     wd = kit.fresh_workdir("C04")
-    parts = [_Part(out), _Part(out), _Part(out)]
-    with cf.ThreadPoolExecutor(max_workers=3) as ex:
+    parts = [_Part(out), _Part(out), _Part(out), _Part(out)]
+    with cf.ThreadPoolExecutor(max_workers=4) as ex:
         futs = [ex.submit(run_dispatch, tier, seed, parts[0], wd),
                 ex.submit(model_check_acceptor, tier, parts[1]),
-                ex.submit(run_walk, tier, seed, parts[2], wd)]
+                ex.submit(run_walk, tier, seed, parts[2], wd),
+                ex.submit(run_dhist, tier, seed, parts[3], wd)]
         for f in futs:
             f.result()
     for p in parts:
@@ -363,7 +446,12 @@ def run(tier, seed, out):
                 "all / one handler on the resolution order / the overridden hook raise one of 8 exception "
                 "classes incl. AttributeError, KeyError, TypeError and user classes); 8 runs each "
                 "(Mapper/CachedMapper x __call__/rec_fallback x extra arguments x hook overridden), recording "
-                "every handler invoked and the value / exception object that came out.  walk: every node kind as root "
+                "every handler invoked and the value / exception object that came out.  dispatch histories: "
+                "ONE Mapper / CachedMapper instance x 2-3 dispatches (entry point __call__ / rec_fallback by "
+                "position) over node classes that share handler names across hierarchies (same class name, "
+                "same explicit mapper_method, two user levels, explicit name of another stock class, the stock "
+                "classes themselves) x every subset of the handler names on their resolution orders, every "
+                "dispatch judged on its own class.  walk: every node kind as root "
                 "(arities, omitted slice parts, kwargs) x one item (any inner kind or special leaf) in a "
                 "position, twin-subtree trees; x 9 instrumented stock traversals x extra-argument tuples x "
                 "visit-answer patterns x renamed leaves; user node classes rooted at Expression / "
@@ -395,6 +483,9 @@ def replay(path, out):
             k.setdefault("mix", False)
         recs = kit.drive(DRV, "drive_dispatch", [det["case"]], {"runs": det["runs"]})
         judge_dispatch(out, recs, wd, det["runs"])
+    elif det["half"] == "dhist":
+        recs = kit.drive(DRV, "drive_dhist", [det["case"]], det["tab"])
+        judge_dhist(out, recs, wd, det["tab"])
     else:
         case = det["case"]
         if "calls" not in case:      # replay files written before histories existed
